@@ -9,6 +9,7 @@ mkdir -p .build .work evidence replays
 cp /repo/go.sum sim/go.sum
 .build/gendbproxy /repo/server/backend/database/database.go sim/zz_dbproxy_gen.go sim
 python3 tools/genc19.py /repo/test/complex/tree_concurrency_test.go sim/zz_c19_matrix_gen.go
+python3 tools/genc13.py /repo/server/rpc/admin_server.go sim/zz_c13_gen.go
 python3 tools/geninstr.py /repo .build/overlay
 (cd sim && go test -c -vet=off -overlay "$PWD/../.build/overlay/overlay.json" -o ../.build/sim-setup.test .)
 echo "setup ok"
